@@ -112,6 +112,7 @@ func addSubscriptions(cfg *apifu.Config, s *graphql.Schema) {
 	// function (finding F-03j: costing its edges panicked)
 	conn := apifu.Connection(&apifu.ConnectionConfig{
 		NamePrefix: "Foo",
+		CursorType: reflect.TypeOf(0), // "required for all connections"
 		ResolveAllEdges: func(ctx graphql.FieldContext) (interface{}, func(a, b interface{}) bool, error) {
 			return []int{1, 2, 3}, func(a, b interface{}) bool { return a.(int) < b.(int) }, nil
 		},
